@@ -251,7 +251,7 @@ func genS2(c *bx.Ctx, x byteSink) {
 					return
 				}
 				bigHL := hl > 12
-				if bigHL && !c.Thorough() && cnt != 0 && cnt != 1 && cnt != 15 && cnt != 31 {
+				if bigHL && !c.Thorough() && cnt == 30 {
 					continue
 				}
 				// buffer lengths
